@@ -137,6 +137,20 @@ def ensure_facts(log=sys.stderr, extra_tag='', cargo_extra=None):
 # indexing
 # ------------------------------------------------------------------------------------------------
 
+import re as _re
+_GEN = _re.compile(r'::<[^<>]*>')
+
+
+def norm_path(p):
+    if not p:
+        return p
+    prev = None
+    while prev != p:
+        prev = p
+        p = _GEN.sub('', p)
+    return p
+
+
 CHILD_KEYS = ('f', 'args', 'recv', 'base', 'e', 'fields', 'scrut', 'arms', 'cond', 'then', 'else', 'init',
               'body', 'stmts', 'expr', 'l', 'r', 'idx', 'es', 'exp', 'iter', 'els', 'guard')
 
@@ -339,8 +353,11 @@ class Program:
                 self.crates[key] = Crate(key, json.load(fh))
         # call index: callee path -> [(fn, call node)]
         self.calls = {}
+        self.calls_norm = {}
         self.aggregates = {}     # adt path -> [(fn, struct node)]
+        self.aggregates_norm = {}
         self.field_writes = {}   # (adt, field) -> [(fn, mcall node)]
+        self.field_writes_norm = {}
         for c in self.crates.values():
             for fn in c.all_fns():
                 for n in fn.walk():
@@ -349,16 +366,20 @@ class Program:
                         cal = n.get('callee')
                         if cal:
                             self.calls.setdefault(cal['path'], []).append((fn, n))
+                            self.calls_norm.setdefault(norm_path(cal['path']), []).append((fn, n))
                             if cal.get('resolved'):
                                 self.calls.setdefault(cal['resolved'], []).append((fn, n))
+                                self.calls_norm.setdefault(norm_path(cal['resolved']), []).append((fn, n))
                         if k == 'mcall' and n['method'] in MUTATORS:
                             r = n['recv']
                             while r.get('k') in ('ref', 'wrap'):
                                 r = r['e']
                             if r.get('k') == 'field' and r.get('adt'):
                                 self.field_writes.setdefault((r['adt'], r['name']), []).append((fn, n))
+                                self.field_writes_norm.setdefault((norm_path(r['adt']), r['name']), []).append((fn, n))
                     elif k == 'struct':
                         self.aggregates.setdefault(n.get('adt', '?'), []).append((fn, n))
+                        self.aggregates_norm.setdefault(norm_path(n.get('adt', '?')), []).append((fn, n))
 
     def crate(self, key):
         return self.crates[key]
